@@ -6,7 +6,7 @@ import re, sys, os
 ROOT = os.path.dirname(os.path.dirname(os.path.abspath(__file__)))
 pid = sys.argv[1]
 src = open(os.path.join(ROOT, "coq/theories/Props/%s.v" % pid)).read()
-imports = [l for l in src.split("\n") if l.startswith("From ") or l.startswith("Require ")]
+imports = [m.group(0) for m in re.finditer(r"^(From|Require) .*?\.$", src, flags=re.S | re.M)]
 out = [l for l in imports]
 out.append("From SV Require Import Props.%s." % pid)
 for m in re.finditer(r"^Theorem (\w+) : (.*?)\.\nProof\.", src, flags=re.S | re.M):
